@@ -398,6 +398,13 @@ def r5_one_worker(ctx: Context) -> None:
             bad += 1
             ctx.violation("C01.R5", "WorkerPool.place_task|True only after placement", loc(last),
                           "place_task reports success on a path that placed the task nowhere")
+        # ... and a path that placed the task must not report failure (the simulator re-queues a failed placement and
+        # would place - and allocate for - the same task a second time)
+        if isinstance(last, ast.Return) and calls and not (isinstance(last.value, ast.Constant) and last.value.value is True):
+            bad += 1
+            ctx.violation("C01.R5", "WorkerPool.place_task|a placement is reported as success", loc(last),
+                          f"place_task returns `{norm(last.value) if last.value is not None else None}` on a path that placed the task on a worker: "
+                          "the caller treats the placement as refused, retries it, and the task's resources are allocated twice")
     ctx.count("pool_place_paths", npaths)
     if not bad:
         ctx.ok("C01.R5", "WorkerPool.place_task|one worker, recorded", loc(fn), f"{npaths} normal paths examined")
@@ -509,6 +516,7 @@ def run(ctx: Context) -> None:
     ctx.isolate(r4_simulator_side)
     ctx.isolate(r5_one_worker)
     ctx.isolate(r7_fit_tests)
+    ctx.isolate(c04.r2b_rollback_is_exact, rule="C01.R6b")
     ctx.isolate(c04.r3_deallocate, rule="C01.R8")
     ctx.isolate(c04.r4_r5_copies, rule4="C01.R9", rule5="C01.R9b")
     from . import c17
